@@ -184,6 +184,15 @@ pub enum PdfError {
     Invalid,
 }
 impl PdfError {
+    /// true if the error (possibly wrapped) says that a referenced object does not exist
+    pub fn is_missing_object(&self) -> bool {
+        match self {
+            PdfError::NullRef { .. } | PdfError::FreeObject { .. } | PdfError::UnspecifiedXRefEntry { .. } => true,
+            PdfError::Try { ref source, .. } | PdfError::FromPrimitive { ref source, .. } => source.is_missing_object(),
+            PdfError::Shared { ref source } => source.is_missing_object(),
+            _ => false
+        }
+    }
     pub fn is_eof(&self) -> bool {
         match self {
             PdfError::EOF => true,
